@@ -155,7 +155,7 @@ func mutants(enc []byte, r *rand.Rand) []mutant {
 	// trailing data
 	add("trailing-byte", cat(enc, []byte{0x00}))
 	add("trailing-byte", cat(enc, []byte{byte(r.Intn(256))}))
-	add("trailing-field", cat(enc, []byte{0x40, 0x00}))      // field 8 varint
+	add("trailing-field", cat(enc, []byte{0x40, 0x00}))       // field 8 varint
 	add("trailing-field", cat(enc, []byte{0x42, 0x01, 0x00})) // field 8 bytes
 	add("trailing-key-only", cat(enc, []byte{0x3a}))          // key of field 7 without length
 	// truncation at every prefix
